@@ -17,7 +17,7 @@ import json
 import os
 import re
 
-from . import impl, asmrun
+from . import impl, asmrun, polyrun
 from .gen import ProgramGen, render, item_text
 
 SYM = {"add": "+", "sub": "-", "mul": "*", "div": "/", "mod": "%", "lshift": "<<", "rshift": ">>", "lsh": "_",
@@ -482,6 +482,8 @@ def run(ctx):
                 "(direct or through a 3-step chain) in 1-5 of 33 operand/directive positions, defined first/last/middle/spread, against the literal "
                 "program; programs: harness.gen programs (sizes depending on later constants) with one definition moved (3x), all last, all "
                 "shuffled; practice: literal-valued definitions of the 21 practice programs moved to other top-level lines. "
+                "engine: random scripts over deferred.LinearPolynomial (constructor, + * -, promises settled in any order with numbers, "
+                "other promises or polynomials, _substitute_known, wait()) against Model.Poly and integer arithmetic. "
                 "distinct = distinct base programs; non-trivial = at least two definitions")
     th = ctx.thorough
     stream_tables(ctx, rng, 1500 if th else 300)
@@ -490,6 +492,8 @@ def run(ctx):
     stream_programs(ctx, rng, 500 if th else 120, True)
     stream_programs(ctx, rng, 200 if th else 50, False)
     stream_practice(ctx, rng, 6 if th else 2, 4 if th else 2)
+    # the arithmetic of the lazy engine itself: whatever is settled first, wait() arrives at the arithmetic value
+    polyrun.poly_stream(ctx, ctx.rng("c03-poly"), 2000 if th else 400)
 
 
 def search(ctx, broken):
